@@ -839,7 +839,8 @@ class TopKRetrievalE(Entry):
     def s(draw):
       kl = draw(st.one_of(st.none(), st.lists(st.integers(1, 7), min_size=1, max_size=3, unique=True).map(sorted)))
       ms = draw(st.lists(st.sampled_from(RETRIEVAL_METRICS), min_size=1, max_size=4, unique=True))
-      return {'k_list': kl, 'metrics': ms}
+      # the relevant ids of an example are only asked for their size and for membership: any such container will do
+      return {'k_list': kl, 'metrics': ms, 'true_as': draw(st.sampled_from(['list', 'list', 'tuple', 'set', 'frozenset', 'dict_keys']))}
     return s()
 
   def row(self, cfg):
@@ -850,7 +851,9 @@ class TopKRetrievalE(Entry):
     return retrieval.TopKRetrieval(k_list=cfg['k_list'], metrics=list(cfg['metrics']))
 
   def args(self, cfg, rows):
-    return ([list(r[0]) for r in rows], [list(r[1]) for r in rows])
+    mk = {'list': list, 'tuple': tuple, 'set': set, 'frozenset': frozenset, 'dict_keys': lambda t: dict.fromkeys(t).keys()}[
+        cfg.get('true_as', 'list')]
+    return ([mk(r[0]) for r in rows], [list(r[1]) for r in rows])
 
   def norm(self, cfg, r):
     return {str(k.value if hasattr(k, 'value') else k): tolist(v) for k, v in r.items()}
